@@ -14,7 +14,6 @@ import (
 	"os"
 	"os/exec"
 	"path/filepath"
-	"runtime/pprof"
 	"sort"
 	"strings"
 	"sync"
@@ -50,12 +49,13 @@ func init() {
 			"the reference decoder O-WAL is used only for input geometry, commit-boundary selection and diagnostics and is itself compared with SQLite on every input",
 			"WALReader is driven directly (NewWALReader / NewWALReaderWithOffset / PageMap / VerifPageMap hook) and the publication step of DB.sync is mirrored by the harness (overlay, growth pages from the database file, trim to commit)",
 			"forged frames with page number 0 and valid checksums are outside the property's quantifier and are not generated",
+			"re-checksummed commit-field edits are judged when the forged sizes keep the two invariants of every SQLite-written WAL (a commit frame's page number <= the size it commits; a transaction writes every page it grows the database by); forged sizes that break them are still run against SQLite and litestream, the outcome is recorded under forged_sizes:* and not judged",
 		},
 		Cases:       cases,
 		RunCase:     runCase,
 		Finish:      finish,
-		MinEvals:    3000,
-		CaseTimeout: 10 * time.Minute,
+		MinEvals:    8000,
+		CaseTimeout: 20 * time.Minute,
 	})
 }
 
@@ -77,7 +77,7 @@ func cases(run *vf.Run) ([]json.RawMessage, error) {
 	var wg sync.WaitGroup
 	sem := make(chan struct{}, 8)
 	for i := 0; i < nb; i++ {
-		specs[i] = makeBaseSpec(vf.SubSeed(run.Seed, "C09-base", i), i)
+		specs[i] = makeBaseSpec(run.Seed, vf.SubSeed(run.Seed, "C09-base", i), i)
 		if run.Scratch == "" {
 			continue
 		}
@@ -143,12 +143,6 @@ func runCase(run *vf.Run, raw json.RawMessage, dir string) *vf.Result {
 		return res
 	}
 	c := &caseCtx{run: run, s: s, dir: dir, res: res, triples: map[string]bool{}}
-	if pf := os.Getenv("VERIF_C09_PROF"); pf != "" {
-		if f, err := os.Create(pf); err == nil {
-			_ = pprof.StartCPUProfile(f)
-			defer func() { pprof.StopCPUProfile(); f.Close() }()
-		}
-	}
 	var err error
 	switch {
 	case s.BaseDir != "":
@@ -195,9 +189,6 @@ func runCase(run *vf.Run, raw json.RawMessage, dir string) *vf.Result {
 		}
 	}
 	c.pyCross()
-	if os.Getenv("VERIF_C09_DEBUG") != "" {
-		fmt.Fprintf(os.Stderr, "C09 counters: %v\n", res.Counters)
-	}
 
 	keys := make([]string, 0, len(c.triples))
 	for k := range c.triples {
@@ -651,7 +642,7 @@ func (c *caseCtx) pyCross() {
 	out, err := exec.CommandContext(ctx, "python3", args...).CombinedOutput()
 	if err != nil || !bytes.Contains(out, []byte("version ")) {
 		c.res.Count("c_sqlite_cross_check_skipped", len(c.py))
-		c.res.Count(fmt.Sprintf("c_sqlite_cross_check_skipped_reason:%.60v/%.80s/after=%ds", err, out, int(time.Since(t0).Seconds())), 1)
+		c.res.Count(fmt.Sprintf("c_sqlite_cross_check_skipped_reason:%.40v/after=%ds", err, int(time.Since(t0).Seconds())), 1)
 		c.res.Logf("python3 sqlite3 unavailable: %v %s", err, out)
 		return
 	}
